@@ -1740,7 +1740,18 @@ impl<'a> Gen<'a> {
         let mut rewrite = false;
         let mut debug_log = false;
         let mut main_path = main_path;
-        match r.below(if single { 14 } else { 10 }) {
+        // the commands that take one source are also run on project directories (own PRNG
+        // stream): today they refuse (a message that lists the files), tomorrow they may
+        // pick a file (S73)
+        let mut xr = Rng::new(mix(r.next_u64(), 0x51c1));
+        let pick = if single {
+            r.below(14)
+        } else if xr.below(5) == 0 {
+            10 + xr.below(3)
+        } else {
+            r.below(10)
+        };
+        match pick {
             0..=5 => {
                 args.push("compile".into());
                 let o = pick_opts(r, false);
